@@ -17,7 +17,7 @@ fn finite_or_nan(x: f64) -> bool {
     !x.is_infinite()
 }
 
-//@h {"id":"C10.K.gridshift.fwd","props":["C10","C08","C09"],"tier":"quick","kind":"complete","replay":"none","timeout":900,"text":"gridshift fwd, one tuple (all f64 bits), any grid behaviour (MockGrid), 1 or 2+ bands, with/without null grid: count <= 1; uncounted => tuple is NaN; counted: geoid grids subtract the height correction from z and leave x,y,t bit-identical, datum grids add the corrections to x,y and leave z,t bit-identical; a hit is always counted; a miss without null grid is never counted"}
+//@h {"id":"C10.K.gridshift.fwd","props":["C10","C08","C09"],"tier":"quick","kind":"complete","replay":"none","timeout":1800,"text":"gridshift fwd, one tuple (all f64 bits), any grid behaviour (MockGrid), 1 or 2+ bands, with/without null grid: count <= 1; uncounted => tuple is NaN; counted: geoid grids subtract the height correction from z and leave x,y,t bit-identical, datum grids add the corrections to x,y and leave z,t bit-identical; a hit is always counted; a miss without null grid is never counted"}
 #[kani::proof]
 #[kani::unwind(12)]
 #[kani::stub(crate::op::ParsedParameters::boolean, stub_boolean)]
@@ -53,7 +53,7 @@ fn c10_gridshift_fwd() {
     kani::cover!(r == 0, "failure reachable");
 }
 
-//@h {"id":"C10.K.gridshift.inv.geoid","props":["C10","C08","C09"],"tier":"quick","kind":"complete","replay":"none","timeout":900,"text":"gridshift inv with a geoid grid, one tuple: adds the height correction; x,y,t bit-identical; uncounted => NaN"}
+//@h {"id":"C10.K.gridshift.inv.geoid","props":["C10","C08","C09"],"tier":"quick","kind":"complete","replay":"none","timeout":1800,"text":"gridshift inv with a geoid grid, one tuple: adds the height correction; x,y,t bit-identical; uncounted => NaN"}
 #[kani::proof]
 #[kani::unwind(12)]
 #[kani::stub(crate::op::ParsedParameters::boolean, stub_boolean)]
@@ -119,7 +119,7 @@ fn c10_gridshift_inv_datum() {
     kani::cover!(r == 0, "failure reachable");
 }
 
-//@h {"id":"C10.K.gridshift.nogrids","props":["C10","C09"],"tier":"quick","kind":"complete","replay":"none","timeout":600,"text":"gridshift with an empty grid list (only @null / only missing optional grids): both directions leave the data bit-identical and count every tuple"}
+//@h {"id":"C10.K.gridshift.nogrids","props":["C10","C09"],"tier":"quick","kind":"complete","replay":"none","timeout":1800,"text":"gridshift with an empty grid list (only @null / only missing optional grids): both directions leave the data bit-identical and count every tuple"}
 #[kani::proof]
 #[kani::unwind(12)]
 #[kani::stub(crate::op::ParsedParameters::boolean, stub_boolean)]
@@ -158,7 +158,7 @@ impl Grid for RegionGrid {
     }
 }
 
-//@h {"id":"C02.K.gridshift.batch","props":["C02","C08"],"tier":"quick","kind":"bounded","bound":"two overlapping grids [A covering x < 10, B covering everything] with distinct power-of-two corrections; 2 tuples in every combination of {only B, A and B} positions and both orders","replay":"none","timeout":900,"text":"gridshift fwd transforms every tuple as if it were alone: the grid used for a tuple is the first one in list order containing it, whatever grid served the previous tuple (no state carried from tuple to tuple)"}
+//@h {"id":"C02.K.gridshift.batch","props":["C02","C08"],"tier":"quick","kind":"bounded","bound":"two overlapping grids [A covering x < 10, B covering everything] with distinct power-of-two corrections; 2 tuples in every combination of {only B, A and B} positions and both orders","replay":"none","timeout":1800,"text":"gridshift fwd transforms every tuple as if it were alone: the grid used for a tuple is the first one in list order containing it, whatever grid served the previous tuple (no state carried from tuple to tuple)"}
 #[kani::proof]
 #[kani::unwind(12)]
 #[kani::stub(crate::op::ParsedParameters::boolean, stub_boolean)]
